@@ -728,6 +728,9 @@ def install_iters(eng):
     for p in ("<core::slice::Iter<'a, T> as core::iter::Iterator>::next", "<core::iter::Zip<A, B> as core::iter::Iterator>::next",
               "<core::iter::Enumerate<I> as core::iter::Iterator>::next", "<core::iter::Take<I> as core::iter::Iterator>::next"):
         M[p] = m_iter_next
+    M["core::iter::Iterator::filter"] = m_iter_filter
+    M["<core::iter::Filter<I, P> as core::iter::Iterator>::next"] = m_filter_next
+    M["core::iter::adapters::filter::<impl core::iter::Iterator for core::iter::Filter<I, P>>::next"] = m_filter_next
     for nm, m in (("find", m_iter_find), ("position", m_iter_position), ("any", m_iter_any), ("all", m_iter_all)):
         M["<core::slice::Iter<'a, T> as core::iter::Iterator>::" + nm] = m
         M["core::iter::Iterator::" + nm] = m
@@ -849,6 +852,102 @@ def _iter_search(eng, st, c, args, dest_tid, t, mode):
                         out.append((s3, Bool(TRUE if mode == "any" else FALSE)))
                 for s3 in miss:
                     work.append((s3, nit, k + 1))
+    return out
+
+
+RANGE_NEXT = "core::iter::range::<impl core::iter::Iterator for core::ops::Range<A>>::next"
+
+
+def m_iter_filter(eng, st, c, args, dest_tid, t):
+    """iter.filter(pred): an adaptor value; the predicate must be a closure (or fn item) with a MIR body"""
+    if eng.closure_fn(args[1]) is None and not isinstance(args[1], FnV):
+        return NotImplemented
+    inner = args[0]
+    if not isinstance(inner, IterV) and not (isinstance(inner, Struct) and len(inner.fs) == 2 and all(isinstance(f, Int) for f in inner.fs)):
+        return NotImplemented
+    return [(st, IterV("filter", a=inner, b=args[1]))]
+
+
+def _pred_call(eng, st, pred, arg):
+    """-> (returned [(state, Bool)], ended states)"""
+    fn = eng.closure_fn(pred)
+    if fn is not None:
+        eng.ncell += 1
+        ckey = ("cell", eng.ncell, "closure-env")
+        st.store[ckey] = pred
+        return eng.subcall(st, fn, [Ref(key=ckey), arg])
+    if isinstance(pred, FnV):
+        f = getattr(pred, "fn", None)
+        if f is None:
+            for g in eng.F.fns:
+                if g and g.get("path") == pred.path and "blocks" in g:
+                    f = g
+                    break
+        if f is not None:
+            return eng.subcall(st, f, [arg])
+    return None, None
+
+
+def m_filter_next(eng, st, c, args, dest_tid, t):
+    """Filter::next: pull from the inner iterator (through whatever hook or model interprets its `next`) until the predicate holds"""
+    ref = args[0]
+    if not (isinstance(ref, Ref) and ref.key is not None):
+        return NotImplemented
+    it = eng.deref(st, ref)
+    if not (isinstance(it, IterV) and it.ikind == "filter"):
+        return NotImplemented
+    out = []
+    work = [(st, it.a, 0)]
+    while work:
+        s0, inner, k = work.pop()
+        if k > 4096:
+            s0.end = "limit"
+            eng.event(s0, "limit", "filter over an unbounded iterator")
+            out.append((s0, None))
+            continue
+        if isinstance(inner, IterV):
+            pulled = [(s1, ni, item) for s1, ni, item in _advance(eng, s0, inner, None)]
+        else:
+            eng.ncell += 1
+            ikey = ("cell", eng.ncell, "filter-inner")
+            s0.store[ikey] = inner
+            h = None
+            for suf, hh in eng.hooks.items():
+                if RANGE_NEXT == suf or RANGE_NEXT.endswith("::" + suf):
+                    h = hh
+            res = h(eng, s0, c, [Ref(key=ikey)], dest_tid, t) if h is not None else NotImplemented
+            if res is NotImplemented or res is None:
+                res = m_range_next(eng, s0, c, [Ref(key=ikey)], dest_tid, t)
+            if res is NotImplemented:
+                return NotImplemented
+            pulled = []
+            for s1, ov in res:
+                if s1.end is not None:
+                    out.append((s1, None))
+                    continue
+                item = ov.fs[0] if isinstance(ov, Enum) and ov.vi == 1 else None
+                pulled.append((s1, s1.store.get(ikey), item))
+        for s1, ni, item in pulled:
+            if item is None:
+                eng.write_key(s1, ref.key, ref.proj, IterV("filter", a=ni, b=it.b))
+                out.append((s1, eng.mk_option(dest_tid, None)))
+                continue
+            eng.ncell += 1
+            key = ("cell", eng.ncell, "iter-item")
+            s1.store[key] = item
+            returned, ended = _pred_call(eng, s1, it.b, Ref(key=key))
+            if returned is None:
+                return NotImplemented
+            out.extend((s2, None) for s2 in ended)
+            for s2, v in returned:
+                if not isinstance(v, Bool):
+                    return NotImplemented
+                ts, fs = eng.branch(s2, v.c)
+                for s3 in ts:
+                    eng.write_key(s3, ref.key, ref.proj, IterV("filter", a=ni, b=it.b))
+                    out.append((s3, eng.mk_option(dest_tid, item)))
+                for s3 in fs:
+                    work.append((s3, ni, k + 1))
     return out
 
 
